@@ -148,10 +148,21 @@ func keysOf(m map[string]*c17Group) []string {
 	return k
 }
 
+// c17ElevatorSortOrder: when non-empty, the informed entity of elevator alerts carries the Mercury
+// entity-selector extension with this sort order (an elevator alert stays an elevator alert)
+var c17ElevatorSortOrder string
+
+// c17SelectorKind: what the selectors of Mercury alerts name: 0 a route, 1 a stop, 2 only the agency
+var c17SelectorKind int
+
 func elevEntity(e elevAlert, n int) *gtfsrt.FeedEntity {
 	// the wire alert informs the platform through a route+stop selector, as the MTA feed does
+	sel := &gtfsrt.EntitySelector{StopId: sp(e.station + e.suffix), AgencyId: sp("MTASBWY")}
+	if c17ElevatorSortOrder != "" {
+		proto.SetExtension(sel, gtfsrt.E_MercuryEntitySelector, &gtfsrt.MercuryEntitySelector{SortOrder: sp(c17ElevatorSortOrder)})
+	}
 	return &gtfsrt.FeedEntity{Id: sp(e.id()), Alert: &gtfsrt.Alert{
-		InformedEntity: []*gtfsrt.EntitySelector{{StopId: sp(e.station + e.suffix), AgencyId: sp("MTASBWY")}},
+		InformedEntity: []*gtfsrt.EntitySelector{sel},
 		HeaderText:     &gtfsrt.TranslatedString{Translation: []*gtfsrt.TranslatedString_Translation{{Text: sp(fmt.Sprintf("elevator out %d", n))}}},
 	}}
 }
@@ -289,6 +300,12 @@ func init() {
 
 func mercurySelector(route string, so int) *gtfsrt.EntitySelector {
 	e := &gtfsrt.EntitySelector{RouteId: sp(route)}
+	switch c17SelectorKind {
+	case 1:
+		e = &gtfsrt.EntitySelector{StopId: sp("A27")} // a station notice: the priority sits on a stop selector
+	case 2:
+		e = &gtfsrt.EntitySelector{AgencyId: sp("MTASBWY")}
+	}
 	if so >= 0 {
 		proto.SetExtension(e, gtfsrt.E_MercuryEntitySelector, &gtfsrt.MercuryEntitySelector{SortOrder: sp(c17SortOrders[so])})
 	}
@@ -447,6 +464,11 @@ func c17Mercury(c *Ctx) {
 	case 3:
 		s.prio2 = 2 // NO_OVERNIGHT_SERVICE
 	}
+	c17SelectorKind = 0
+	if s.prio2 == -2 {
+		c17SelectorKind = c.Free("selector_names", 3) // a route, a stop, only the agency
+	}
+	defer func() { c17SelectorKind = 0 }()
 	s.prefix = c.Free("id_prefix", 3)
 	s.hasExt = c.Free("mercury_alert_extension", 2) == 1
 	s.ownCE = c.Free("own_cause_effect", 2) == 1
@@ -504,6 +526,9 @@ func c17Mixed(c *Ctx) {
 	skip := c.Free("skip_timetabled_no_service", 2) == 1
 	meta := c.Free("add_metadata", 2) == 1
 	seq := []elevAlert{elevFromIndex(c.Free("elev[0]", 12)), elevFromIndex(c.Free("elev[1]", 12))}
+	// the elevator alerts' own informed entities may carry a Mercury priority (a timetabled one, or another)
+	c17ElevatorSortOrder = []string{"", "MTASBWY:A27:3", "MTASBWY:A27:29"}[c.Free("elevator_entities_carry_a_mercury_priority", 3)]
+	defer func() { c17ElevatorSortOrder = "" }()
 	s := mercurySpec{prio1: []int{29, 2, -1}[c.Free("priority", 3)], prio2: -2, prefix: c.Free("id_prefix", 3), hasExt: c.Free("mercury_alert_extension", 2) == 1, skip: skip, meta: meta}
 	m := newFeed(cp(&tsAlphabet[0]))
 	ents := []*gtfsrt.FeedEntity{elevEntity(seq[0], 0), c17MercuryEntity(c, s), elevEntity(seq[1], 1), plainAlertEntity("plain-1"),
@@ -523,7 +548,7 @@ func c17Mixed(c *Ctx) {
 		}
 	}
 	opts := nyctalerts.ExtensionOpts{ElevatorAlertsDeduplicationPolicy: policy, ElevatorAlertsInformUsingStationIDs: useStation, SkipTimetabledNoServiceAlerts: skip, AddNyctMetadata: meta}
-	desc := fmt.Sprintf("opts=%+v elevators=%v mercury=%+v order=%v", opts, []string{seq[0].id(), seq[1].id()}, s, perm)
+	desc := fmt.Sprintf("opts=%+v elevators=%v (sort order %q) mercury=%+v order=%v", opts, []string{seq[0].id(), seq[1].id()}, c17ElevatorSortOrder, s, perm)
 	b := marshalFeed(m)
 	c.Input(hash64(string(b)+desc), true, func() string { return desc + "\n" + feedText(m) })
 	r, err, ok := parseRT(c, b, &gtfs.ParseRealtimeOptions{Extension: nyctalerts.Extension(opts)})
@@ -551,7 +576,7 @@ func init() {
 	register(&Check{
 		ID:    "C17",
 		Level: "model_checking",
-		Rule: "(1) all sequences with repetition of <= 3 (thorough <= 5) elevator alerts over 12 ids (stations A27 / E01, or N04 / S04 whose ids begin with a direction letter) x position of an optional plain alert x 3 policies x station-id flag x {first parse, second parse with the same extension value}; (2) every Mercury priority 1..40 (route-level sort orders) + agency-level and stop-level sort orders (one and three id segments) + 6 unknown/malformed/absent sort orders x second selector {none, same, DELAYS, NO_OVERNIGHT} x 3 id prefixes x Mercury alert extension x own cause/effect x skip x metadata; (3) mixed feeds (2 elevator alerts, Mercury alert, plain alert, trip update) x 3 orders x all 24 option combinations; fresh extension per parse; " +
+		Rule: "(1) all sequences with repetition of <= 3 (thorough <= 5) elevator alerts over 12 ids (stations A27 / E01, or N04 / S04 whose ids begin with a direction letter) x position of an optional plain alert x 3 policies x station-id flag x {first parse, second parse with the same extension value}; (2) every Mercury priority 1..40 (route-level sort orders; on a route, a stop or an agency-only selector) + agency-level and stop-level sort orders (one and three id segments) + 6 unknown/malformed/absent sort orders x second selector {none, same, DELAYS, NO_OVERNIGHT} x 3 id prefixes x Mercury alert extension x own cause/effect x skip x metadata; (3) mixed feeds (2 elevator alerts, Mercury alert, plain alert, trip update) x 3 orders x all 24 option combinations; fresh extension per parse; " +
 			"non-trivial = distinct (message, options); oracle = reference grouping / tables + differential against the extension-free parse",
 		Assumptions: []string{"metadata is expected iff requested and the alert carries the Mercury alert extension", "with several different priorities in one alert the effect must be that of one of them (which one is unspecified); such an alert may be dropped when any of them is a timetabled no-service priority", "TZ=UTC so that the metadata JSON is reproducible"},
 		Scenarios: func(tier string) []*Scenario {
